@@ -43,6 +43,9 @@ def layouts(text, seed):
     if L:
         hs.append([['plain', text], ['apply', R['B'], 0, max(1, L - 1), True]])
         hs.append([['plain', text], ['apply', R['B'], min(1, L - 1), L, True]])
+        # verbatim multi-group setting / non-canonical spelling: a copy made by re-parsing the text would split or re-spell it
+        hs.append([['plain', text], ['apply', R['q'], 0, max(1, L - 1), True]])
+        hs.append([['rainbow', text], ['apply', R['o'], min(1, L - 1), L, True]])
     return hs
 
 
